@@ -285,9 +285,9 @@ Definition r2_pass (r2of : svar -> svar -> list (Z * Z) -> list (Z * Z) -> res (
 (* [r2of] : the r2 ComputeLD returns for (candidate calls, index calls); None = NaN.
    [win] : the window test of QueryWindow - the code's is [win_float kb] with kb the float64
    given as clump_kb (C17_Check.model_clump); the theorems hold for every window predicate *)
-Definition clumpstr (r2of : svar -> svar -> list (Z * Z) -> list (Z * Z) -> res (option Q))
-           (win : svar -> svar -> bool) (k : cfg)
-  : res (list clump) :=
+(* clumpstr up to the clumping loop: presence checks, both tables loaded and keyed, genotypes
+   loaded and merged; [run gts stats] is the loop *)
+Definition clumpstr_gen {R} (run : list gent -> list svar -> res R) (k : cfg) : res R :=
   (* "One of summstats-... and gts-... is not present" *)
   if negb (Bool.eqb (is_some (k_rows_snp k)) (is_some (k_snps k))) then Err E_Exc else
   if negb (Bool.eqb (is_some (k_rows_str k)) (is_some (k_strs k))) then Err E_Exc else
@@ -296,9 +296,13 @@ Definition clumpstr (r2of : svar -> svar -> list (Z * Z) -> list (Z * Z) -> res 
   bind (opt_load (k_hdr_str k) (k_fields k) (k_p2 k) 1 (k_rows_str k)) (fun s2 =>
   if match k_snps k with Some a => existsb snp_calls_bad (gs_vars a) | None => false end then Err E_Value else
   bind (merged_gts (k_snps k) (k_strs k)) (fun gts =>
-  let stats := rekey 0 (s1 ++ s2) in
-  clump_loop (length stats) (k_p1 k) win (load_variant gts)
-    (r2_pass r2of (k_r2 k) gts) stats))).
+  run gts (rekey 0 (s1 ++ s2))))).
+
+Definition clumpstr (r2of : svar -> svar -> list (Z * Z) -> list (Z * Z) -> res (option Q))
+           (win : svar -> svar -> bool) (k : cfg)
+  : res (list clump) :=
+  clumpstr_gen (fun gts stats =>
+    clump_loop (length stats) (k_p1 k) win (load_variant gts) (r2_pass r2of (k_r2 k) gts) stats) k.
 
 Definition pearson_oracle (iv c : svar) (gc gi : list (Z * Z)) : res (option Q) := Ok (pearson_ld gc gi).
 
